@@ -48,6 +48,8 @@ type Commit struct {
 	Reason  string // put, delete, txn, lease-expire, lease-revoke
 	Changes []Change
 	Step    int
+	// Unacked: the write was applied but its issuer is told it failed (unknown outcome)
+	Unacked bool
 }
 
 // Faults configures the fault model; all probabilities are per request.
@@ -123,6 +125,7 @@ type Cluster struct {
 	// FailFilter restricts the fail plan / write counting to keys with this prefix
 	FailKeyFilter func(key string) bool
 	ClusterID     uint64
+	curUnacked    bool
 	reqSeq        int
 }
 
@@ -317,11 +320,19 @@ func (c *Cluster) request(ctx context.Context, node int, label string, write boo
 		return errUnavailable
 	}
 	c.reqSeq++
-	if err := apply(); err != nil {
+	failAfter := planned == "after" || (injectable && write && f.PErrAfter > 0 && s.Chance("etcd.err.after", f.PErrAfter))
+	c.mu.Lock()
+	c.curUnacked = failAfter
+	c.mu.Unlock()
+	err := apply()
+	c.mu.Lock()
+	c.curUnacked = false
+	c.mu.Unlock()
+	if err != nil {
 		simrt.Yield("etcd.resp " + label)
 		return err
 	}
-	if planned == "after" || (injectable && write && f.PErrAfter > 0 && s.Chance("etcd.err.after", f.PErrAfter)) {
+	if failAfter {
 		s.Count("fault.etcd.err-after")
 		s.Event("etcd %s n%d FAIL-AFTER(applied)", label, node)
 		simrt.Yield("etcd.resp " + label)
@@ -660,7 +671,7 @@ func (c *Cluster) commit(ts *txnState, node int, reason string) {
 		return
 	}
 	c.rev = ts.rev
-	cm := Commit{Rev: ts.rev, Node: node, Reason: reason, Changes: ts.changes, Step: c.Sim.Step}
+	cm := Commit{Rev: ts.rev, Node: node, Reason: reason, Changes: ts.changes, Step: c.Sim.Step, Unacked: c.curUnacked}
 	c.history = append(c.history, cm)
 	if len(c.history) > 4096 {
 		c.compactRev = c.history[len(c.history)-2048].Rev
